@@ -65,6 +65,28 @@ func runC03(c *vkit.Ctx, i int, h *History) {
 		}
 		h.Classes["entries-edited-in-place-between-calls"] = true
 	}
+	if i%7 == 5 {
+		// Clean is not the end of the process: it is called (report-only) between two calls of
+		// tests that are still running; it must change nothing, and the calls that follow
+		// address the slots they would have addressed without it
+		cr := c.Rand("clean", i)
+		prev := s.BeforeStep
+		s.BeforeStep = func(o Op) {
+			if prev != nil {
+				prev(o)
+			}
+			if cr.IntN(5) != 0 {
+				return
+			}
+			if called, changed := s.ReportOnlyClean(); called {
+				c.Count("report_only_Clean_calls_between_two_calls", 1)
+				if len(changed) > 0 {
+					c.Violate("report-only-clean-changed-the-directory", "", fmt.Sprint(changed), map[string]any{"history": h, "before_op": o})
+				}
+			}
+		}
+		h.Classes["Clean-called-between-calls"] = true
+	}
 	nontrivial := false
 	shared := map[string]map[string]bool{}
 	for _, t := range h.Tests {
